@@ -131,8 +131,8 @@ Str(s) == s
 TKinds == {"T1", "T2", "T3", "T4"}
 MKinds == {"M1", "M2", "M3", "M4"}
 KIdx(k) == IF k \in {"T1", "M1"} THEN 1 ELSE IF k \in {"T2", "M2"} THEN 2 ELSE IF k \in {"T3", "M3"} THEN 3 ELSE 4
-TagName(kd) == IF kd[1] \in {"R", "P", "S", "SP", "NV", "NN", "XR"} \cup MKinds THEN RM
-               ELSE IF kd[1] \in {"T", "F", "SF", "XT"} \cup TKinds THEN TL
+TagName(kd) == IF kd[1] \in {"R", "P", "S", "SP", "NV", "NN", "XR", "RB", "PB"} \cup MKinds THEN RM
+               ELSE IF kd[1] \in {"T", "F", "SF", "XT", "TB"} \cup TKinds THEN TL
                ELSE IF kd[1] = "UX" THEN RM \o <<120>>            \* the registered name with a letter appended
                ELSE IF kd[1] = "UP" THEN SubSeq(RM, 1, Len(RM) - 1) \o <<45>>   \* its proper prefix plus a dash
                ELSE <<120, 120>>   \* xx
@@ -143,6 +143,9 @@ FlagAttrs(kd) ==
 CondAttr(kd) ==
          IF kd[1] = "NV" THEN <<32, 110, 97, 109, 101>>                                                        \* bare name
          ELSE IF kd[1] = "NN" THEN <<>>                                                                        \* no name at all
+         ELSE IF kd[1] = "TB" THEN <<32, 116, 111>> \o EqS \o Q \o <<50, 48, 48, 48, 47, 48, 49, 47, 48, 49, 32, 48, 48, 58, 48, 48, 58, 48, 48>> \o Q   \* to='2000/01/01 00:00:00': never ready
+         ELSE IF kd[1] = "RB" THEN <<32, 110, 97, 109, 101>> \o EqS \o Q \o <<97, 32>> \o Q                      \* name='a ' (ready iff 'a ' is a target)
+         ELSE IF kd[1] = "PB" THEN <<32, 110, 97, 109, 101>> \o EqS \o Q \o <<32, 97>> \o Q                      \* name=' a'
          ELSE IF kd[1] = "XR" THEN <<32, 116, 111>> \o EqS \o Q \o PastTo \o Q                                       \* marker tag, `to` only
          ELSE IF kd[1] \in {"R", "S", "U", "UX", "UP", "XT"} THEN <<32, 110, 97, 109, 101>> \o EqS \o Q \o <<97>> \o Q                 \* name='a'
          ELSE IF kd[1] \in {"P", "SP"} THEN <<32, 110, 97, 109, 101>> \o EqS \o Q \o <<98>> \o Q             \* name='b'
